@@ -11,7 +11,7 @@ inductive Ty
   | bool | int | float | string | object
   | optional (t : Ty) | array (t : Ty) | map (t : Ty)
   | custom (name : In)
-  | enum (vs : List In)
+  | enum (vs : List (In × List In))   -- name, comments (the parser never produces comments here)
   | struct (fs : List (In × Ty × List In))   -- name, type, comments
 deriving Inhabited
 
@@ -253,7 +253,7 @@ def enumType : Nat → In → PR Ty
         | .ok v r1 => more (r1.length + 1) r1 [v]
         | _ => ([], r)
       let r' := wsF r'
-      (match litB [41] r' with | .ok _ r'' => .ok (.enum vs) r'' | _ => .err r')
+      (match litB [41] r' with | .ok _ r'' => .ok (.enum (vs.map fun v => (v, []))) r'' | _ => .err r')
     | _ => .err i
 end
 
